@@ -485,7 +485,7 @@ def random_cases(rng, n, thorough):
 
 TRUSTED = [
     "Lean 4.33.0 kernel (lake build; leanchecker in the thorough tier); axioms allowed: propext, Classical.choice, Quot.sound (audited by #print axioms on every run)",
-    "theorems over all parse trees: C01_fixup_tables_bounded, C01_arena_fits (+ C01_arena_accounting), emit_total / compile_total, C01_reject_is_clean; C01_code_fits is only _partial (manager byte accounting) - the agreement of the two passes is compared per tree (progLength, bytes written, every code byte, certificate gross == progLength, hook H3)",
+    "theorems over all parse trees: C01_fixup_tables_bounded, C01_arena_fits (+ C01_arena_accounting), emit_total / compile_total, C01_reject_is_clean; C01_code_fits for every tree of the parser's shape (Node.plain, evaluated on every dumped tree); the per-tree certificate gross == progLength and the byte-for-byte comparison remain as independent ties",
     "hand-written model lean/MorfuseModel/Emit/Model.lean of ScriptEmitter + ScriptCountManager + ScriptProgramManager + ScriptCompiler::Preallocate/Compile + the label-set / container allocation of set.h / Container.h, and Emit/Master.lean of ScriptMaster::GetProgramScript + ProgramScript::Load; tied by the differential run (progLength, bytes written, arena used/reserved, container and table sizes, required stack size, every code byte, every label set, size info of the counting pass, outcome class)",
     "translator tools/props/c01.py: Gen/EmitConsts.lean from the built binary (opcode table via its accessors, sizeof of the arena objects, table bounds, ring size, set_primes), cross-checked with ScriptOpcodes.h/.cpp and Compiler.h",
     "harness/compile.cpp: includes src/Script/Compiler.cpp to reach the file-local manager classes; its tree dump resolves names (event numbers, dictionary indices, getter/setter class look-ups) with the functions the emitter calls; its replica of EmitProgram (4 statements) is cross-checked byte-for-byte with the real path",
@@ -548,8 +548,8 @@ def check(ctx):
     ctx.stats["skipped_after_failures"] = skipped + runner.skipped
     ctx.oblige("per-tree certificate (the lemma C01_code_fits still lacks): gross bytes of the model's program pass == progLength of its counting pass, on every modelled tree",
                runner.cert_fail == 0, "%d trees fail" % runner.cert_fail)
-    ctx.oblige("trees outside Node.plain (a unary minus on an operand that is neither a literal nor ends in a non-literal opcode): the per-tree certificate held for each of the %d (of %d modelled trees)" % (runner.outside, runner.modelled),
-               runner.outside_cert_fail == 0, "%d fail" % runner.outside_cert_fail)
+    ctx.oblige("every dumped parse tree has the shape C01_code_fits is about (Node.plain: listener bytes <= 6, the operand of a unary minus is an expression): %d of %d modelled trees" % (runner.plain, runner.modelled),
+               runner.outside == 0, "%d trees outside, certificate failures among them: %d" % (runner.outside, runner.outside_cert_fail))
     common.log("C01 class: %d of %d modelled trees in Node.plain, %d outside, certificate failures outside: %d" % (runner.plain, runner.modelled, runner.outside, runner.outside_cert_fail))
     ctx.samples = [c.src.decode("latin1")[:300] for c in random_cases(ctx.rng("sample"), 4, False)]
     cov = {
